@@ -380,7 +380,7 @@ func genProgram(r *rand.Rand, depth int, random bool) program {
 	}
 	if random {
 		g.use("random")
-		sb.WriteString("RETURN { p: @p, q: @q, r: " + body + ", t: RANDOM_TOKEN(8), u: LENGTH(RANDOM_TOKEN(@p % 5 + 1)), v: (FOR i IN 1..3 RETURN RANDOM_TOKEN(4)) }")
+		sb.WriteString("RETURN { p: @p, q: @q, r: " + body + ", t: RANDOM_TOKEN(8), u: LENGTH(RANDOM_TOKEN(@p % 5 + 1)), v: (FOR i IN 1..3 RETURN RANDOM_TOKEN(4)), w: RAND() < 2, x: (FOR i IN 1..3 RETURN RAND(5, 1) >= 1) }")
 	} else {
 		// regular expressions with patterns that depend on the run's parameters (a shared
 		// cache of compiled patterns shows up under concurrent runs); one program in four,
